@@ -340,15 +340,16 @@ class PathEvents:
                     self.add('WRITE', i, ev[2], open=handles[h], method='print', args=v[2], kw=dict(v[3]), **ctx)
             elif k == 'mcall' or (k in ('value', 'expr') and v[0] == 'mcall'):
                 recv, meth, args, kw, node = (ev[1], ev[2], ev[3], ev[4], ev[5]) if k == 'mcall' else (v[1], v[2], v[3], v[4], ev[2])
-                if meth in ('write', 'writelines'):
+                if recv not in handles and isinstance(recv, tuple) and is_open(strip(recv)) and writes(open_mode(strip(recv))[1]):
+                    # open(path, 'wb').write(data) / .close(): opened (so created or truncated), used and dropped in one expression
+                    path_v, mode = open_mode(strip(recv))
+                    e = self.add('OPEN', i, node, path=path_v, mode=mode, handle=recv, closed=i, **ctx)
+                    if meth in ('write', 'writelines'):
+                        self.add('WRITE', i, node, open=e, method=meth, args=args, kw=dict(kw), **ctx)
+                    self.add('CLOSE', i, node, open=e, **ctx)
+                elif meth in ('write', 'writelines'):
                     if recv in handles:
                         self.add('WRITE', i, node, open=handles[recv], method=meth, args=args, kw=dict(kw), **ctx)
-                    elif is_open(strip(recv)) and writes(open_mode(strip(recv))[1]):
-                        # open(path, 'wb').write(data): opened, written and dropped in one expression
-                        path_v, mode = open_mode(strip(recv))
-                        e = self.add('OPEN', i, node, path=path_v, mode=mode, handle=recv, closed=i, **ctx)
-                        self.add('WRITE', i, node, open=e, method=meth, args=args, kw=dict(kw), **ctx)
-                        self.add('CLOSE', i, node, open=e, **ctx)
                     else:
                         self.add('WRITE?', i, node, recv=recv, method=meth, args=args, **ctx)
                 elif meth == 'close' and recv in handles:
